@@ -160,13 +160,17 @@ fn ar_suite(run: &Run, x: &[f64], p: usize, horizons: usize, tag: &str) {
     run.tr();
     run.ok();
     let desc = || format!("{} AR({}) on x(len {})={:?}", tag, p, n, &x[..n.min(12)]);
-    let mut ar = AR::new(p);
     let prior = AR_PRIOR.with(|c| c.borrow().clone());
+    // a re-used model object may have had another order before (the order is a public field, as in an order-selection
+    // loop): orders p+2 and max(p-1,1) on alternate cases
+    let p_before = if prior.is_some() && n % 2 == 0 { p + 2 } else if prior.is_some() { p.saturating_sub(1).max(1) } else { p };
+    let mut ar = AR::new(p_before);
     if let Some(px) = &prior {
         // a re-used model object: the second fit must be as good as a first one
         let _ = guard(|| {
             ar.fit(px);
         });
+        ar.p = p;
         run.regime("AR-refit");
     }
     if let Err(e) = guard(|| {
